@@ -762,6 +762,17 @@ func (c *Ctx) FBin(op Op, a, b *Term) *Term {
 		}
 		return Const(32, uint64(math.Float32bits(r)))
 	}
+	// x*1 = 1*x = x/1 = x exactly in IEEE-754 (NaN, infinities and signed zeros included)
+	one := uint64(0x3ff0000000000000)
+	if a.W == 32 {
+		one = 0x3f800000
+	}
+	if (op == OFMul || op == OFDiv) && b.Op == OConst && b.Val == one {
+		return a
+	}
+	if op == OFMul && a.Op == OConst && a.Val == one {
+		return b
+	}
 	return c.intern(&Term{Op: op, W: a.W, FW: a.W, Args: []*Term{a, b}})
 }
 
